@@ -19,6 +19,9 @@ SCHED = [None]  # optional scheduler: object with .yield_point(kind, info)
 SHARED = set()  # product roots whose files are ONE file object per path, handed out (rewound) by every open and never really closed:
 #                 the semantics of fsspec's own memory:// filesystem, on which only the caller's locking keeps two readers apart
 _shared = {}
+JITTER = [0.0]  # seconds slept at the start of every read (after the seek that positioned it): lets the threads an implementation may
+#                 use internally interleave on a handle they share; harmless for a single reader
+FLAKY = []  # armed one-shot transient faults: dict(path, op "read" | "cat", nth, consume, exc); see arm_fault()
 DENY = set()  # product roots under which a MISSING object is reported as PermissionError (an object store that answers 403 for
 #               keys that do not exist when listing is not permitted) instead of FileNotFoundError
 
@@ -74,6 +77,31 @@ def clear_faults():
         FAULT_LEN.clear()
 
 
+def arm_fault(root, name, op="read", nth=1, consume=0.5, exc=ConnectionResetError):
+    """the nth `op` on that file (counted from now) fails ONCE with a transient OSError; a failing read first consumes
+    `consume` x the requested bytes (the position moves, as on a stream that breaks half way)"""
+    with _lock:
+        FLAKY.append({"path": f"{norm(root)}/{name}", "op": op, "nth": nth, "seen": 0, "consume": consume, "exc": exc, "fired": False})
+
+
+def clear_flaky():
+    with _lock:
+        fired = [f for f in FLAKY if f["fired"]]
+        FLAKY.clear()
+    return fired
+
+
+def _fault_for(path, op):
+    with _lock:
+        for f in FLAKY:
+            if f["path"] == path and f["op"] == op and not f["fired"]:
+                f["seen"] += 1
+                if f["seen"] == f["nth"]:
+                    f["fired"] = True
+                    return f
+    return None
+
+
 def _content(path):
     data = STORE[path]
     n = FAULT_LEN.get(path)
@@ -109,6 +137,17 @@ class TracedFile(io.BytesIO):
         return super().seek(off, whence)
 
     def read(self, size=-1):
+        if JITTER[0]:
+            import time
+
+            time.sleep(JITTER[0])
+        flt = _fault_for(self._path, "read") if FLAKY else None
+        if flt is not None:
+            pos = self.tell()
+            n = (len(self.getvalue()) - pos) if size is None or size < 0 else size
+            super().read(int(n * flt["consume"]))
+            _emit({"e": "fault", "h": self._h, "f": base(self._path), "pos": pos, "req": -1 if size is None else size, "moved": int(n * flt["consume"])})
+            raise flt["exc"](104, "transient I/O error injected by the tracing filesystem")
         pos = self.tell()
         ev = {"e": "read", "h": self._h, "f": base(self._path), "pos": pos, "req": -1 if size is None else size}
         s = SCHED[0]
@@ -127,6 +166,19 @@ class TracedFile(io.BytesIO):
                 ev["seq"] = len(LOG)
                 LOG.append(ev)
         return data
+
+    def readinto(self, b):
+        """a read by another name: served through read() so that it is observed (and scheduled) like one"""
+        data = self.read(len(b))
+        n = len(data)
+        b[:n] = data
+        return n
+
+    def read1(self, size=-1):
+        return self.read(size)
+
+    def readall(self):
+        return self.read(-1)
 
     def close(self):
         if not self._closed_logged:
@@ -199,6 +251,10 @@ class TraceFS(AbstractFileSystem):
             if path not in STORE:
                 raise _missing(path)
             data = _content(path)
+        flt = _fault_for(path, "cat") if FLAKY else None
+        if flt is not None:
+            _emit({"e": "fault", "f": base(path), "op": "cat"})
+            raise flt["exc"](110, "transient I/O error injected by the tracing filesystem")
         _emit({"e": "cat", "f": base(path), "path": path, "got": len(data[start:end])})
         return data[start:end]
 
